@@ -258,3 +258,13 @@ def core_specs(backends, parts, thorough=False):
 
 def load_core(backends, parts, thorough=False):
     return load_many(core_specs(backends, parts, thorough))
+
+
+def load_sigs(backends, thorough=False):
+    """the generated signature / callback family (drivers/sigs.cpp + gen_sigs.hpp, see tools/gen_sigs.py)"""
+    return load_many([("%s/SIGS" % b, "sigs.cpp", list(BACKENDS[b]) + (["-DVB_THOROUGH"] if thorough else [])) for b in backends])
+
+
+def load_structs(backends, thorough=False):
+    """the generated struct family (drivers/structs.cpp + gen_structs.hpp, see tools/gen_structs.py)"""
+    return load_many([("%s/STRUCT" % b, "structs.cpp", list(BACKENDS[b]) + (["-DVB_THOROUGH"] if thorough else [])) for b in backends])
